@@ -8,7 +8,7 @@ from numba_scfg.core.datastructures.basic_block import (
 )
 
 from ..families import enum_closed, make_scfg, shards
-from ..kernel import shard_map
+from ..kernel import guarded, shard_map
 from ..progs import skeleton_sources
 from ..runner import Acc
 from ..sweep import exc_fingerprint, graph_case, rotate, unit_graphs, units_for, frontend_graphs
@@ -118,7 +118,7 @@ def check_graph(g, fam, acc: Acc, opts):
                 if not ok or gap == GAPS - 1:
                     break
                 try:
-                    getattr(scfg, STAGES[gap])()
+                    guarded(getattr(scfg, STAGES[gap]))
                     acc.transitions += 1
                 except Exception:  # noqa: BLE001   continuing a re-read graph is C18 / C02 territory
                     acc.counters["continuation_raised_after_reload(C18/C02)" if hist else "stage_raised(C02)"] += 1
@@ -151,7 +151,7 @@ def check_byteflow(chunk):
                 try:
                     scfg = ByteFlow.from_bytecode(ns["f"]).scfg
                     for i in range(gap):
-                        getattr(scfg, STAGES[i])()
+                        guarded(getattr(scfg, STAGES[i]))
                 except Exception:  # noqa: BLE001
                     acc.counters["byteflow_unbuildable(C09/C02)"] += 1
                     break
